@@ -33,7 +33,7 @@ ASSUMPTIONS = [
     "ignore patterns and the tool name are non-empty, as every caller guarantees",
     "the zone is set per case (UTC or a zone with daylight saving); offset correctness itself is C16, here only the instants must survive the round trip",
 ]
-BUDGET = {"quick": (600, 4), "thorough": (100000, 16)}
+BUDGET = {"quick": (600, 4), "thorough": (48000, 16)}
 REQUIRED = ["special_text", "line_separator_text", "size0", "previous_path", "reference", "dir_record", "roothash", "authors", "chain", "history_manifests", "chain_nonunique_or_gapped", "collection_files", "bulk_manifest", "bulk_history", "zone_with_dst", "loaded_through_history"]
 
 CLI = refhash.CLI_FORMATS
